@@ -23,6 +23,9 @@ EXPLANATION = (
 EXPLANATION += (
     ' ADDED: C06.5: DelayRecordingTime is zslices[0] converted by int()/round() without a shift (int(x + 0.5) truncates toward zero and is off by one for negative start times). C06.6: on the export path the only assignment to self.headerbytes and the only element stores into a copy of it are the BinField.Format fallback under `code not in [1, 5]`: the 3600 stored bytes are written back verbatim.'
 )
+EXPLANATION += (
+    ' C06.7: the exporter takes every trace from get_trace(i); its addresses, decodes and crops (rules of C02) hold in every layout mode, including non-square blockshapes.'
+)
 ASSUMPTIONS = ['segyio/binfield.py enumerates the SEG-Y binary header fields by 1-based byte position; SEG-Y is big-endian']
 NOT_DECIDED = ('Everything that is segyio\'s behaviour: what it writes for a spec, IBM rounding, the geometry it infers on '
                're-open, irregular sorting, and equality of samples. These are the bulk of the statement.')
